@@ -7,6 +7,7 @@ in Ok(true) records exactly one correction (none = test dropped, more = duplicat
 suffix the reader recognises reaches the entry.  Does not decide byte-for-byte idempotence.
 """
 from common import *  # noqa: F401,F403
+import os
 import rsrules
 from rsrules import calls_named, trace_root, user_local_def_field, adt, is_loop_next_switch
 from taint import Taint, root_var
@@ -294,6 +295,52 @@ def rule_f3(ctx, F):
         ctx.bad("F3", "parse_delimiter_line:only-line-terminators-ignored", "parse_delimiter_line: %s — lines of the input that merely look like delimiters become delimiters and `--update` cuts the input there" % why, {"function": fn.name})
 
 
+def rule_f4(ctx, F):
+    """The field stripper recognises every plain-identifier field name (ASCII letters, digits and
+    `_` — the alphabet the generator's own identifier sanitiser passes through unchanged).  A
+    narrower class leaves `name1: (` in the rewritten expectation; the next run then sees `: (`,
+    compares with fields shown, and the freshly updated test fails / is rewritten again."""
+    import rsrules
+    fn = ctx.need_fn(F, "test::strip_sexp_fields", "F4")
+    if not fn:
+        return
+    need = rsrules._ALPHA | rsrules._DIGIT | frozenset([95])
+    src = "table [A-Za-z0-9_]"
+    # the alphabet the grammar DSL admits for field names (crates/generate/src/dsl.js: function field)
+    try:
+        import re as _re
+        js = open(os.path.join(ctx.extract.REPO, "crates/generate/src/dsl.js")).read()
+        m = _re.search(r"function field\(name, rule\) \{.*?/\^((?:\[[^\]]+\][*+?]?)+)\$/", js, _re.S)
+        if m:
+            dsl = set()
+            for cls in _re.findall(r"\[([^\]]+)\]", m.group(1)):
+                i = 0
+                while i < len(cls):
+                    if i + 2 < len(cls) and cls[i + 1] == "-":
+                        dsl.update(range(ord(cls[i]), ord(cls[i + 2]) + 1)); i += 3
+                    else:
+                        dsl.add(ord(cls[i])); i += 1
+            if dsl and all(c < 128 for c in dsl):
+                need = frozenset(dsl)
+                src = "dsl.js field(): /^%s$/" % m.group(1)
+    except OSError:
+        pass
+    cl = [f for f in F.fn_list if f.name.startswith("test::strip_sexp_fields::{closure") and len(f.params) == 2 and f.params[1]["t"] in ("u8", "char")]
+    ctx.floor("field-name character classifiers in strip_sexp_fields", len(cl), 1)
+    for f in cl:
+        acc = rsrules.ascii_class(f)
+        key = "strip_sexp_fields:field-name-class-covers-identifiers"
+        if acc is None:
+            ctx.bad("F4", key, "could not evaluate the character class of %s (%s:%d) — not a loop-free predicate over std classifiers and constants" % (f.name, f.file, f.line), {"function": f.name})
+        elif need <= acc:
+            ctx.ok("F4", key, "the field-name class accepts every character the grammar DSL admits in a field name (%s; %d ASCII code points accepted; P(ASCII) dataflow over the closure's MIR)" % (src, len(acc)),
+                   sample={"function": f.name, "accepted": "".join(chr(c) for c in sorted(acc) if 32 < c < 127)})
+        else:
+            miss = "".join(chr(c) for c in sorted(need - acc))
+            ctx.bad("F4", key, "strip_sexp_fields no longer recognises field names containing `%s` (%s:%d): such fields survive the stripping, and an updated test fails on the next run" % (miss, f.file, f.line),
+                    {"function": f.name, "missing": miss})
+
+
 def run(ctx):
     ctx.config = "rust"
     F = ctx.extract.rsfacts(CRATE)
@@ -302,6 +349,7 @@ def run(ctx):
     rule_f2(ctx, F)
     rule_p1(ctx, F)
     rule_f3(ctx, F)
+    rule_f4(ctx, F)
     return ctx.finish(
         "Field-flow, taint and path-counting rules over rustc MIR of crates/cli/src/test.rs: each TestCorrection is built from the entry's own name/input/attributes/delimiter lengths; "
         "the writer reads every field; with --update each Example path to Ok(true) records exactly one correction; the recognised delimiter suffix must reach the entry. "
